@@ -7,7 +7,9 @@ output (no model involved): Go's unused / undeclared / statement-context / impor
 `Go.Sem` outcome of the output equal to that of the input.
 
 `run(ctx)` is the `./check dce` entry; `evaluate(ctx)` is what the C02 / C09 checks call: it
-returns (coverage dict, list of (signature, what, payload)) without touching ctx.violations.
+returns (coverage dict, list of (signature, what, payload)) without touching ctx.violations;
+`split_for_properties(found)` says which of the two properties each failure belongs to.  A check
+that uses it also passes `PROP_MODULE` to `ctx.build_lean` so that the theorems are audited.
 """
 import os, re, subprocess, concurrent.futures
 import vlib
@@ -257,6 +259,22 @@ def evaluate(ctx):
         "impl_oracle_failures": len(found),
     }
     return cov, found
+
+
+def split_for_properties(found):
+    """which property a failure of the DCE oracles belongs to: C02 owns Go's validity rules, C09 the
+    behaviour (dropped / duplicated / reordered effects); a panic of the pass itself goes to both"""
+    c02, c09 = [], []
+    for sig, what, payload in found:
+        o = sig.get("oracle", "")
+        if o.startswith("go-rules"):
+            c02.append((dict(sig, source="dce"), what, payload))
+        elif o in ("gosem", "pipeline-anf-vs-go"):
+            c09.append((dict(sig, source="dce"), what, payload))
+        else:
+            c02.append((dict(sig, source="dce"), what, payload))
+            c09.append((dict(sig, source="dce"), what, payload))
+    return c02, c09
 
 
 def run(ctx):
